@@ -38,8 +38,39 @@ func BlockEndCallbackRule(w *World, r *Result, rule string) {
 			continue
 		}
 		// calls that reach the callback: the parameter itself, or a closure of fn that calls it
+		// the value called is the callback handed in, or the callback with a do-nothing default
+		// put in its place where none was handed in (if callback == nil { callback = func… })
+		isCbValue := func(v ssa.Value) bool {
+			if v == ssa.Value(cb) {
+				return true
+			}
+			ph, ok := v.(*ssa.Phi)
+			if !ok {
+				return false
+			}
+			has := false
+			for _, e := range ph.Edges {
+				switch y := e.(type) {
+				case *ssa.Parameter:
+					if y != cb {
+						return false
+					}
+					has = true
+				case *ssa.Function, *ssa.MakeClosure:
+				case *ssa.ChangeType:
+					switch y.X.(type) {
+					case *ssa.Function, *ssa.MakeClosure:
+					default:
+						return false
+					}
+				default:
+					return false
+				}
+			}
+			return has
+		}
 		reaches := func(c *ssa.Call) bool {
-			if c.Call.Value == ssa.Value(cb) {
+			if isCbValue(c.Call.Value) {
 				return true
 			}
 			var lit *ssa.Function
@@ -95,7 +126,7 @@ func BlockEndCallbackRule(w *World, r *Result, rule string) {
 						if u, ok := v.(*ssa.UnOp); ok {
 							v = u.X
 						}
-						isCb := v == ssa.Value(cb)
+						isCb := isCbValue(v)
 						if fv, ok := v.(*ssa.FreeVar); ok && g != fn {
 							isCb = isCb || types.Identical(fv.Type().(*types.Pointer).Elem(), cb.Type()) || types.Identical(fv.Type(), cb.Type())
 						}
